@@ -563,6 +563,21 @@ func (i *interpreter) info(fn *ssa.Function) *fnInfo {
 			fi.ext = externals[fn.Origin().String()]
 		}
 	}
+	inReflect := fn.Pkg != nil && fn.Pkg.Pkg.Path() == "reflect"
+	if o := fn.Origin(); o != nil && o.Pkg != nil && o.Pkg.Pkg.Path() == "reflect" {
+		inReflect = true
+	}
+	if fi.ext == nil && inReflect && fn.Synthetic != "package initializer" {
+		// reflection is not interpreted.  Type descriptors (package-level "xType =
+		// reflect.TypeFor[X]()" initialisers of library packages) become an opaque nil
+		// reflect.Type; every other entry into package reflect ends the path.
+		if strings.HasPrefix(fi.name, "reflect.TypeFor[") || fi.name == "reflect.TypeOf" {
+			fi.ext = func(fr *frame, a []value) value { return iface{} }
+		} else {
+			msg := "reflection: " + fi.name
+			fi.ext = func(fr *frame, a []value) value { panic(pathEnd{kind: "unsupported", msg: msg}) }
+		}
+	}
 	if fn.Synthetic == "package initializer" && fn.Pkg != nil && !i.initOK(fn.Pkg.Pkg.Path()) {
 		fi.skipInit = true
 	}
